@@ -10,5 +10,7 @@ TO2 == [c \in C2 |-> c]
 \* a peer that answers every request it received exactly once and sends nothing else
 Polite == /\ \A q \in DOMAIN pkt : pkt[q].id \in DOMAIN seen
           /\ \A q, r \in DOMAIN pkt : q # r => pkt[q].id # pkt[r].id
+F1 == {-5}
+Local == {"cas", "add", "pre", "sel", "reg1", "unreg1", "post"}
 \* at most one connection loss per run keeps the timed runs small
 ====
